@@ -151,6 +151,18 @@ func RegisterVerifContracts(mg contract.Manager) {
 	reg.RegisterKernMethod(VerifContract2, "Run", func(ctx contract.KContext) (*contract.Response, error) {
 		return runProg(ctx, VerifContract2)
 	})
+	// Tick is the target of generated timer tasks: it appends its argument to the key "tick".
+	reg.RegisterKernMethod(VerifContract, "Tick", func(ctx contract.KContext) (*contract.Response, error) {
+		old, _ := ctx.Get(VerifContract, []byte("tick"))
+		nv := append(append([]byte{}, old...), ctx.Args()["args"]...)
+		if len(nv) > 48 {
+			nv = nv[len(nv)-48:]
+		}
+		if err := ctx.Put(VerifContract, []byte("tick"), nv); err != nil {
+			return nil, err
+		}
+		return &contract.Response{Status: 200}, nil
+	})
 }
 
 // sortedKeys is a helper for deterministic iteration.
